@@ -478,4 +478,9 @@ let register (reg : string -> (string list -> string) -> unit) =
   reg "jsrw0b" (function [sx] -> jsprint_case_gen ~top:PrintModel.coq_OpExpr ~bytes_out:true true sx | _ -> "BADARGS");
   reg "cssbox" (function [v] -> Stdlib.String.concat "," (Stdlib.List.map (fun n -> string_of_int (int_of_nat n)) (CssBox.box_collapse_nat (intlist v))) | _ -> "BADARGS");
   reg "tokbuf" (function [t; o] -> tokbuf t o | _ -> "BADARGS");
+  reg "json_parse" (function [t] | [t; _] ->
+      let (evs, ok) = JsonParse.parse_events (if t = "-" || t = "" then [] else hexd t) in
+      show_events evs ^ "|" ^ (if ok then "1" else "0")
+    | [] -> let (evs, ok) = JsonParse.parse_events [] in show_events evs ^ "|" ^ (if ok then "1" else "0")
+    | _ -> "BADARGS");
   reg "json_tree" (function [t] -> show_events (JsonSpec.events_of JsonModel.SValue (parse_tree t)) | _ -> "BADARGS")
